@@ -453,6 +453,49 @@ class _Z3Ints:
         return p >= 0 if c.op == 'ge' else p == 0 if c.op == 'eq' else p != 0
 
 
+class LevelCache:
+    """one dict per assumption level; a value stored at level k is valid at every deeper level (entailment and
+    everything computed from entailed decisions is monotone in the assumptions)"""
+    __slots__ = ('levels',)
+
+    def __init__(self):
+        self.levels = [{}]
+
+    def push(self):
+        self.levels.append({})
+
+    def pop(self):
+        self.levels.pop()
+
+    def clear(self):
+        self.levels = [{}]
+
+    def get(self, k, default=None):
+        for d in reversed(self.levels):
+            v = d.get(k, _MISSING)
+            if v is not _MISSING:
+                return v
+        return default
+
+    def __contains__(self, k):
+        return any(k in d for d in self.levels)
+
+    def __getitem__(self, k):
+        for d in reversed(self.levels):
+            if k in d:
+                return d[k]
+        raise KeyError(k)
+
+    def __setitem__(self, k, v):
+        self.levels[-1][k] = v
+
+    def top_get(self, k, default=None):
+        return self.levels[-1].get(k, default)
+
+
+_MISSING = object()
+
+
 class Context:
     """Assumption stack + LIA solver + per-evaluation memo.  One global instance (CTX)."""
 
@@ -464,8 +507,9 @@ class Context:
         self.solver = z3.Solver()
         self.solver.set('timeout', 20000)
         self.assumptions = []        # list of ICond
-        self.cache = {}
-        self.memo = {}
+        self.cache = LevelCache()    # monotone facts: ('E', cond) -> True
+        self.neg = LevelCache()      # non-monotone facts, valid at the level they were stored only (top_get)
+        self.memo = LevelCache()
         self.stats = {'lia_queries': 0, 'splits': 0}
         self.level = 0
         self.mono_axioms_done = set()
@@ -478,29 +522,32 @@ class Context:
     def push(self, conds):
         self.solver.push()
         self.level += 1
+        self.cache.push()
+        self.neg.push()
+        self.memo.push()
         n = 0
         for c in conds:
             self.assumptions.append(c)
             self._add(c)
             n += 1
-        self.cache = {}
-        self.memo = {}
         return n
 
     def pop(self, n):
         self.solver.pop()
         self.level -= 1
+        self.cache.pop()
+        self.neg.pop()
+        self.memo.pop()
         if n:
             del self.assumptions[-n:]
-        self.cache = {}
-        self.memo = {}
 
     def assume(self, c):
         """permanent (until reset) assumption, e.g. N >= 1"""
         self.assumptions.append(c)
         self._add(c)
-        self.cache = {}
-        self.memo = {}
+        self.cache.clear()
+        self.neg.clear()
+        self.memo.clear()
 
     def _add(self, c):
         self._mono_axioms(c)
@@ -532,25 +579,35 @@ class Context:
         if c.is_false():
             return self.infeasible()
         k = ('E', c.key())
-        r = self.cache.get(k)
-        if r is None:
-            self._mono_axioms(c)
-            self.stats['lia_queries'] += 1
-            self.solver.push()
-            self.solver.add(z3.Not(self.z.cond(c)))
-            res = self.solver.check()
-            self.solver.pop()
-            r = (res == z3.unsat)
-            self.cache[k] = r
+        if self.cache.get(k) is True:
+            return True
+        if self.neg.top_get(k) is False:
+            return False
+        self._mono_axioms(c)
+        self.stats['lia_queries'] += 1
+        self.solver.push()
+        self.solver.add(z3.Not(self.z.cond(c)))
+        res = self.solver.check()
+        self.solver.pop()
+        r = (res == z3.unsat)
+        if r:
+            self.cache[k] = True
+        else:
+            self.neg[k] = False
         return r
 
     def infeasible(self):
         k = ('INF',)
-        r = self.cache.get(k)
-        if r is None:
-            self.stats['lia_queries'] += 1
-            r = (self.solver.check() == z3.unsat)
-            self.cache[k] = r
+        if self.cache.get(k) is True:
+            return True
+        if self.neg.top_get(k) is False:
+            return False
+        self.stats['lia_queries'] += 1
+        r = (self.solver.check() == z3.unsat)
+        if r:
+            self.cache[k] = True
+        else:
+            self.neg[k] = False
         return r
 
     def decide(self, c):
@@ -590,28 +647,36 @@ CTX = Context()
 
 
 def explore(fn, base=(), max_leaves=4000):
-    """Run fn() under assumption sets obtained by splitting on every undecided condition.
+    """Run fn() under assumption sets obtained by splitting on every undecided condition (depth-first, with
+    nested assumption levels so that decisions and element values computed higher up are reused).
     Returns list of (assumptions_tuple, result).  Infeasible regions are dropped."""
     leaves = []
-    stack = [tuple(base)]
-    while stack:
-        conds = stack.pop()
-        n = CTX.push(conds)
+    path = list(base)
+
+    def rec():
+        if CTX.infeasible():
+            return
         try:
-            if CTX.infeasible():
-                continue
-            try:
-                res = fn()
-            except NeedSplit as e:
-                CTX.stats['splits'] += 1
-                stack.append(conds + (e.cond,))
-                stack.append(conds + (e.cond.neg(),))
-                continue
-            leaves.append((conds, res))
-            if len(leaves) > max_leaves:
-                raise OutOfReach('more than %d leaves' % max_leaves)
-        finally:
-            CTX.pop(n)
+            res = fn()
+        except NeedSplit as e:
+            CTX.stats['splits'] += 1
+            for c in (e.cond, e.cond.neg()):
+                n = CTX.push([c])
+                path.append(c)
+                try:
+                    rec()
+                finally:
+                    path.pop()
+                    CTX.pop(n)
+            return
+        leaves.append((tuple(path), res))
+        if len(leaves) > max_leaves:
+            raise OutOfReach('more than %d leaves' % max_leaves)
+    n = CTX.push(base)
+    try:
+        rec()
+    finally:
+        CTX.pop(n)
     return leaves
 
 
